@@ -13,6 +13,21 @@ CFGS = {
 CASE_RE = re.compile(r'^<<"CASE", (".*")>>$')
 
 
+def mc_generic(work, module, consts, invariants, timeout=3000):
+    """Runs a design-check / generator module; returns the emitted cases and TLC's statistics."""
+    cfg = "CONSTANTS\n%sSPECIFICATION Spec\nINVARIANTS %s EmitCase\nCHECK_DEADLOCK FALSE\n" % (consts, invariants)
+    out, st = vlib.tlc(work, module, cfg, workers=vlib.NCPU, timeout=timeout, heap="8g")
+    if "is violated" in out or "Error:" in out or st["rc"] != 0:
+        brief = "\n".join(l[:300] for l in out.splitlines() if not l.startswith('<<"CASE"'))
+        raise Broken("design check %s failed - the model itself violates its invariants or TLC broke:\n%s" % (module, brief[-3000:]))
+    cases = []
+    for line in out.splitlines():
+        m = CASE_RE.match(line)
+        if m:
+            cases.append(json.loads(json.loads(m.group(1))))
+    return cases, st
+
+
 def mc_codec(work, cfgs, emit, invariants="RoundTrip Walkable MatcherSound ProtoTop NormIdem OptionLocal CrossRead", module="MCCodec", extra="",
              sweep="SweepQuick"):
     extra = "  LenSweep <- %s\n" % sweep + extra
@@ -60,6 +75,14 @@ def run_cases(pvh, cases_path, work, tag, budget="10s", workers=None):
     return out
 
 
+def trivial(e):
+    """Non-codec events: trivial = the all-empty input."""
+    ev = e.get("ev")
+    if ev == "prim":
+        return not e.get("u") and not e.get("data")
+    return False
+
+
 def nontrivial_stats(trace_paths):
     """Counts events and DISTINCT non-trivial cases: distinct (type, value) pairs whose value is not the
     type's all-zero value (measured as: the real encoding is non-empty or the value differs from what an
@@ -69,12 +92,17 @@ def nontrivial_stats(trace_paths):
         for line in open(p):
             e = json.loads(line)
             n += 1
-            key = hashlib.md5((json.dumps(e.get("T"), sort_keys=True) + "|" + json.dumps(e.get("v"), sort_keys=True) +
-                               "|" + json.dumps(e.get("cfg"), sort_keys=True)).encode()).hexdigest()
-            triv = not e.get("out", {}).get("bytes")
+            key = hashlib.md5(json.dumps({k: v for k, v in e.items() if k not in ("id", "out", "sess", "u_")}, sort_keys=True).encode()).hexdigest()
+            if e.get("ev") == "codec":
+                triv = not e.get("out", {}).get("bytes")
+            else:
+                triv = trivial(e)
             if not triv:
                 seen.add(key)
             if len(samples) < 3 and not triv and len(line) < 1500:
-                samples.append({"id": e["id"], "cfg": {k: v for k, v in e["cfg"].items() if v}, "T": e["T"], "v": e["v"],
-                                "bytes": e["out"].get("bytes")})
+                if e.get("ev") == "codec":
+                    samples.append({"id": e["id"], "cfg": {k: v for k, v in e["cfg"].items() if v}, "T": e["T"], "v": e["v"],
+                                    "bytes": e["out"].get("bytes")})
+                else:
+                    samples.append(e)
     return n, len(seen), samples
